@@ -329,6 +329,9 @@ fn run_host<H: Host>(mut host: H, c: &AgentCfg, cs: &mut AgentCensus, tallies: &
             if o.bid { cs.limit_buys += 1 } else { cs.limit_sells += 1 }
             *per_trader_limit.entry(o.trader).or_default() += 1;
             if c.kind == 0 {
+                if per_trader_limit[&o.trader] > 1 {
+                    return bad("random_agent_two_orders_in_one_update", format!("trader {} created {} orders in one update", o.trader, per_trader_limit[&o.trader]));
+                }
                 let k = o.price / tick;
                 if k < c.tick_range.0 || k >= c.tick_range.1 {
                     return bad("price_outside_tick_range", format!("{:?} tick range {:?} tick {}", o, c.tick_range, tick));
